@@ -276,6 +276,9 @@ def is_illegal(c, w, st, rec, own, peer, in_sess):
         known = []
         if own is not None:
             known.append(own['tid'])
+        if k == 'XFER_ACK' and st == 'queued':
+            # nothing of the own transfer has been sent yet: an acknowledgement of it is out of place
+            return True
         return all(bool(rec['transfer_id'] != t) for t in known)
     return False
 
